@@ -191,6 +191,30 @@ pub fn programs(tier: Tier) -> ProgramSet {
             }
         }
     }
+    // SCALE: 40 variants of every kind; explicit discriminants re-anchor the chain several times
+    for (repr, data) in [(Some("i16"), false), (None, true), (Some("u8"), true)] {
+        let mut spec = EnumSpec::base(0);
+        spec.repr = repr.map(|r: &str| r.to_string());
+        let tys = [FieldTy::U8, FieldTy::I32, FieldTy::Bool];
+        for i in 0..40usize {
+            let mut v = VariantSpec::unit(&format!("V{}", (i * 17) % 41));
+            if data {
+                match i % 4 {
+                    1 => v.kind = Kind::Tuple(vec![tys[i % 3].clone()]),
+                    2 => v.kind = Kind::Named(vec![NamedField { name: "a".into(), ty: tys[i % 3].clone(), default_with: false }, NamedField { name: "b".into(), ty: FieldTy::U8, default_with: false }]),
+                    _ => {}
+                }
+            }
+            if repr.is_some() && i % 13 == 5 {
+                v.disc = Some(format!("{}", 60 + i * 3));
+            }
+            spec.variants.push(v);
+        }
+        if in_domain(&spec) {
+            let source = render(&spec);
+            out.push(Program { idx: 0, label: format!("SCALE: 40 variants, repr {:?}, data {}", repr, data), k: 1, spec, aux: json!(null), source });
+        }
+    }
     let mut ex = std::collections::BTreeMap::new();
     ex.insert("duplicate / out-of-range discriminant, explicit discriminant on data enum without repr".to_string(), excluded);
     ProgramSet { programs: finish(out), excluded: ex, bounds: json!({"plan_(N,k)": plan, "payload_assignments": 2}) }
